@@ -3,7 +3,7 @@ import collections
 import hashlib
 import random
 
-from vmon import env, history, ir as irmod, plainrun, recobserver, regmodel
+from vmon import env, history, ir as irmod, plainrun, rec, recobserver, regmodel
 
 ID = "C15"
 LEVEL = "exploration"
@@ -52,6 +52,13 @@ def gen_cases(tier, seed):
         else:
             d["steps"] = r.randint(0, 5)
         out.append(d)
+    for i in range(n // 20):
+        out.append({"seed": env.seed_for(seed, ID, tier, "flaky_completed", i), "mode": "flaky_completed", "members": 2, "W": 1, "n": 3, "sched": "default"})
+    for i in range(n // 15):
+        s = env.seed_for(seed, ID, tier, "dry", i)
+        r = random.Random(env.seed_for(s, "descriptor"))
+        out.append({"seed": s, "mode": "dry", "n": r.randint(1, 12), "registry": r.choice(["none", "none", "empty", "full"]), "members": r.choice([1, 2]), "W": 1, "sched": "default",
+                    "cfg": {"out": r.choice(["all", "sinks", "node", "none"]), "p_scope": 0.6, "n_fnames": 3}})
     for i in range(n // 12):
         s = env.seed_for(seed, ID, tier, "faulty", i)
         r = random.Random(env.seed_for(s, "descriptor"))
@@ -103,7 +110,7 @@ def expected_builtin_totals(ir, executed_ids):
 def make_progress(desc, tmpdir=None):
     import uberjob.progress as up
 
-    recs = [recobserver.RecObserver(f"rec{i}") for i in range(desc.get("members", 1))]
+    recs = [recobserver.RecObserver(f"rec{i}") if (desc["seed"] + i) % 5 else recobserver.make_null_based_recorder(f"rec{i}") for i in range(desc.get("members", 1))]
     members = [r.progress() for r in recs]
     if desc.get("bundled"):
         members.insert(1 if len(members) > 1 else 0, up.Progress(lambda: up.HtmlProgressObserver(lambda b: None, initial_update_delay=0.0005, min_update_interval=0.0005, max_update_interval=0.001)))
@@ -119,6 +126,57 @@ def make_progress(desc, tmpdir=None):
     return recs, up.composite_progress(members[0], up.composite_progress(*members[1:]))
 
 
+def run_dry(desc):
+    """dry_run=True (without a registry, with an empty one, with a real one): the observer is still entered and exited exactly once and the
+    'run' totals of the returned plan are announced; nothing is reported running."""
+    import uberjob
+
+    recs, progress = make_progress(desc)
+    rng = random.Random(desc["seed"])
+    if desc["registry"] == "full":
+        rp = regmodel.gen_regplan(rng, max(2, desc["n"]))
+        S = regmodel.Session(rp, desc["seed"])
+        out_ids = history.choose_out(rng, S)
+        res, exc = S.run(out_ids, W=1, dry_run=True, progress=progress)
+        describe = S.describe(10)
+    else:
+        ir = irmod.gen_ir(rng, desc["n"], rich=True, cfg=desc.get("cfg"))
+        H = rec.Harness(ir, record_args=False)
+        plan = uberjob.Plan()
+        out = irmod.build(ir, plan, H.make_fn)
+        exc = res = None
+        try:
+            res = uberjob.run(plan, output=out, dry_run=True, progress=progress, registry=uberjob.Registry() if desc["registry"] == "empty" else None)
+        except BaseException as e:
+            exc = e
+        describe = ir.describe(10)
+    if exc is not None:
+        return {"status": "inconclusive", "detail": f"dry run raised {exc!r}"}
+    tr = recs[0].trace
+    # (a dry run announces the 'run' totals of the plan it returns but executes none of them: completed == total is not demanded there)
+    bad = recobserver.check_trace(tr, balanced=True, succeeded=False) if tr else "the observer received nothing during a dry run: not entered, not exited, no totals"
+    if bad is None and any(t[2] in ("running", "completed", "failed") and t[3] == "run" for t in tr):
+        bad = "a dry run reported calls of the 'run' section as running/completed"
+    if bad is None:
+        pplan = res[0]
+        want = collections.Counter()
+        from uberjob._graph import get_full_call_scope
+        from uberjob.graph import Call
+
+        for nd in pplan.graph.nodes():
+            if type(nd) is Call:
+                want[get_full_call_scope(nd)] += 1
+        got = recobserver.totals(tr, "run")
+        if got != +want:
+            bad = f"'run' totals announced during the dry run {dict(got)} differ from the calls of the returned physical plan {dict(want)}"
+    r_ = {"status": "ok", "counters": {"dry_run_traces": 1, f"dry_registry_{desc['registry']}": 1}, "nontrivial": True,
+          "sig": hashlib.sha1(("dry|" + "\n".join(describe) + desc["registry"]).encode()).hexdigest()[:16]}
+    if bad:
+        r_.update(status="violation", detail=f"[dry run, registry={desc['registry']}] {bad}", mechanism="observer-trace",
+                  witness={"plan": describe, "trace": [f"{k}:{s}:{sc}:{x}" for _, _, k, s, sc, x in tr[:60]]})
+    return r_
+
+
 def run_case(desc):
     if desc["mode"] == "faulty_member":
         bad, info = recobserver.run_with_faulty_member(desc["seed"], desc["members"], desc["bundled"], desc["compose"])
@@ -127,6 +185,14 @@ def run_case(desc):
         if bad:
             res.update(status="violation", detail=f"[composite with a failing member: {info}] {bad}", mechanism="observer-trace", witness=info)
         return res
+    if desc["mode"] == "flaky_completed":
+        bad, info = recobserver.run_with_flaky_completed(desc["seed"])
+        res = {"status": "ok", "counters": {"flaky_completed_runs": 1}, "nontrivial": True, "sig": f"flaky|{desc['seed'] % 1000}"}
+        if bad:
+            res.update(status="violation", detail=f"[composite (recorder, member raising inside 'completed'): {info}] {bad}", mechanism="observer-trace", witness=info)
+        return res
+    if desc["mode"] == "dry":
+        return run_dry(desc)
     recs, progress = make_progress(desc)
     extra_calls = []
     if desc["mode"] == "plain":
